@@ -285,10 +285,9 @@ where
         }
 
         let from_buffer = Ord::min(n, self.bits_in_buffer as _);
-        self.buffer = self.buffer.rotate_left(from_buffer as _);
 
         #[allow(unused_mut)]
-        let mut self_buffer_u64: u64 = self.buffer.cast();
+        let mut self_buffer_u64: u64 = self.buffer.rotate_left(from_buffer as _).cast();
 
         #[cfg(feature = "checks")]
         {
@@ -304,7 +303,9 @@ where
         n -= from_buffer;
 
         if n == 0 {
+            // Drop the copied bits; the bits below the valid ones must stay zero
             self.bits_in_buffer -= from_buffer as usize;
+            self.buffer <<= from_buffer as usize;
             return Ok(());
         }
 
@@ -332,8 +333,9 @@ where
         bit_write
             .write_bits((new_word >> self.bits_in_buffer).upcast(), n as usize)
             .map_err(CopyError::WriteError)?;
-        self.buffer = UpcastableInto::<BB<WR>>::upcast(new_word)
-            .rotate_right(WR::Word::BITS as u32 - n as u32);
+        self.buffer = (UpcastableInto::<BB<WR>>::upcast(new_word)
+            << (BB::<WR>::BITS - self.bits_in_buffer - 1))
+            << 1;
 
         Ok(())
     }
